@@ -94,7 +94,7 @@ def task_init_group(pr, repo):
     G = repo.cls('propka.group.Group')
     A = repo.cls('propka.atom.Atom')
     for rtype in ('CYS', 'ASP'):
-        for lst in ('none', 'hit', 'chain-miss', 'number-miss', 'icode-miss', 'empty', 'symbolic'):
+        for lst in ('none', 'hit', 'hit-twin-first', 'hit-twin-last', 'chain-miss', 'number-miss', 'icode-miss', 'empty', 'symbolic'):
             def thunk(ex, ctx, rtype=rtype, lst=lst):
                 chain, num, ic = 'E', 48, 'A'
                 bridge = B('bridge')
@@ -116,6 +116,11 @@ def task_init_group(pr, repo):
                     tl, member = None, None
                 elif lst == 'hit':
                     tl, member = [('E', 48, ' '), ('E', 48, 'A'), ('I', 7, ' ')], True
+                elif lst == 'hit-twin-first':
+                    # the same number and insertion code selected in two chains (a homodimer): both stay selected
+                    tl, member = [('E', 48, 'A'), ('I', 48, 'A')], True
+                elif lst == 'hit-twin-last':
+                    tl, member = [('I', 48, 'A'), ('E', 48, 'A'), ('J', 48, 'A')], True
                 elif lst == 'chain-miss':
                     tl, member = [('I', 48, 'A')], False
                 elif lst == 'number-miss':
@@ -129,8 +134,9 @@ def task_init_group(pr, repo):
                     tl = [(c, n, i)]
                     member = And(ex.equals(c, chain), n == num, ex.equals(i, ic))
                 params = record('P', None)
-                conf = record('conf', repo.cls(CC), parameters=params,
-                              molecular_container=record('mol', None, options=record('o', None, titrate_only=tl)))
+                fresh = dict(init_defaults(repo.cls(CC)))       # a freshly constructed container (its own __init__'s literal fields)
+                fresh.update(parameters=params, molecular_container=record('mol', None, options=record('o', None, titrate_only=tl)))
+                conf = record('conf', repo.cls(CC), **fresh)
                 ex.call_function(fi, [g], self_obj=conf)
                 tit, exc = g.attrs['titratable'], g.attrs['exclude_cys_from_results']
                 if member is None:
